@@ -689,7 +689,8 @@ class cmap_format_2(CmapSubtable):
         # with the result that the subhead 0 would not get created just by processing the item list.
         # The same is true for an entirely empty (all-notdef) cmap, where there
         # are no char codes to process at all.
-        if not charCodes or charCodes[0] > 255:
+        mappedCodes = [code for code, gid in zip(charCodes, gids) if gid != 0]
+        if not mappedCodes or mappedCodes[0] > 255:
             subHeader = SubHeader()
             subHeader.firstCode = 0
             subHeader.entryCount = 0
